@@ -515,6 +515,57 @@ func locksetScenarioF7(t testing.TB, k *locksetCounters, iters int) {
 	p.lconn.Close()
 }
 
+// scenario "listener read error": the listener's socket starts failing while handler goroutines,
+// woken by the propagated error, Close their accepted sessions.  The monitor goroutine walks the
+// session table (notifyReadError, once per listener) while Close removes entries from it; many
+// listeners x many sessions so that the detector gets its chance.
+func locksetScenarioReadErr(t testing.TB, k *locksetCounters, rounds, nsess int) {
+	for round := 0; round < rounds; round++ {
+		nw := locksetNewNet()
+		lconn := nw.listen("server")
+		l, err := ServeConn(nil, 0, 0, lconn)
+		if err != nil {
+			t.Fatal(err)
+		}
+		// nsess peers "connect": one window-probe segment (sn 0) from nsess different addresses
+		for i := 0; i < nsess; i++ {
+			pkt := make([]byte, IKCP_OVERHEAD)
+			pkt[0], pkt[1], pkt[2], pkt[3] = byte(i), byte(i>>8), 0x10, byte(round)
+			pkt[4] = IKCP_CMD_WASK
+			pkt[6] = 32
+			lconn.in <- locksetPkt{data: pkt, from: locksetAddr("peer-" + string(rune('A'+round%26)) + "-" + string(rune(0x4e00+i)))}
+		}
+		var hw sync.WaitGroup
+		l.SetDeadline(time.Now().Add(10 * time.Second))
+		for i := 0; i < nsess; i++ {
+			s, err := l.AcceptKCP()
+			k.add("L.AcceptKCP", 1)
+			if err != nil {
+				t.Fatalf("read-error scenario: accept %d/%d: %v", i, nsess, err)
+			}
+			hw.Add(1)
+			go func(s *UDPSession) { // a connection handler: blocked in Read, closes on error
+				defer hw.Done()
+				buf := make([]byte, 64)
+				for {
+					_, err := s.Read(buf)
+					k.add("Read", 1)
+					if err != nil {
+						s.Close()
+						k.add("Close", 1)
+						return
+					}
+				}
+			}(s)
+		}
+		time.Sleep(2 * time.Millisecond) // let the handlers block
+		lconn.Close()                    // from now on ReadFrom fails: monitor -> notifyReadError
+		hw.Wait()
+		l.Close()
+		k.add("L.Close", 1)
+	}
+}
+
 func TestVerifC14(t *testing.T) {
 	rep := newReport("C14")
 	k := &locksetCounters{c: make([]atomic.Int64, len(locksetOpNames))}
@@ -573,6 +624,14 @@ func TestVerifC14(t *testing.T) {
 	}
 	if only == "" || only == "F7" {
 		account("F7:SetLogger-vs-SetLogger", func() { locksetScenarioF7(t, k, iters) })
+	}
+	if only == "" || only == "readerr" {
+		rounds, nsess := 8, 60
+		if vThorough() {
+			rounds, nsess = 40, 100
+		}
+		account("readerr:listener-read-error-vs-session-Close", func() { locksetScenarioReadErr(t, k, rounds, nsess) })
+		rep.Extra["readerr_rounds_x_sessions"] = []int{rounds, nsess}
 	}
 	total := int64(0)
 	for i, n := range locksetOpNames {
